@@ -31,7 +31,7 @@ func runC10(c *Ctx) {
 			short(s.Base)+" may be nil: "+s.Source)
 	}
 	// the possibly-nil sources themselves must still exist (vacuity guard)
-	c.Check("sources", 0, sources >= 3, "at least 3 possibly-nil protobuf sources are recognised in the program", "found "+itoa(sources))
+	c.Check("sources", 0, sources >= 2, "at least 2 possibly-nil protobuf sources are recognised in the program", "found "+itoa(sources))
 
 	// R2 key check in ProtocolMessenger.GetValue
 	c.Rule("R2")
@@ -93,18 +93,33 @@ func c04R3(c *Ctx) {
 	c.Check(K(f.Name, "record returns"), f.Pos(), n >= 1, "GetValue has a return carrying the received record", "none found")
 }
 
+// paramObj resolves a parameter of f by name; when the name no longer exists (a rename)
+// it falls back to the parameter's position on the pinned tree (paramtable_gen.go), so
+// renaming a parameter never changes a verdict.
 func paramObj(f *eng.Func, name string) *eng.Var {
 	if f.Type.Params == nil {
 		return nil
 	}
+	idx := 0
+	var byIdx []*eng.Var
 	for _, fl := range f.Type.Params.List {
-		for _, id := range fl.Names {
-			if id.Name == name {
-				if v, ok := f.Info().Defs[id].(*eng.Var); ok {
-					return v
-				}
-			}
+		if len(fl.Names) == 0 {
+			byIdx = append(byIdx, nil)
+			idx++
+			continue
 		}
+		for _, id := range fl.Names {
+			v, _ := f.Info().Defs[id].(*eng.Var)
+			if id.Name == name && v != nil {
+				recordParam(f.Name, name, idx, false)
+				return v
+			}
+			byIdx = append(byIdx, v)
+			idx++
+		}
+	}
+	if i, ok := paramTable[f.Name+"|"+name]; ok && i < len(byIdx) {
+		return byIdx[i]
 	}
 	return nil
 }
@@ -222,7 +237,7 @@ func c10R3(c *Ctx) {
 			return true
 		})
 	}
-	c.Check("readers", 0, readers >= 5, "at least 5 readers of wire peer records exist", "found "+itoa(readers))
+	c.Check("readers", 0, readers >= 3, "at least 3 readers of wire peer records exist", "found "+itoa(readers))
 }
 
 func isGenerated(p *eng.Prog, f *eng.Func) bool {
@@ -245,26 +260,19 @@ func derefsOf(f *eng.Func, obj eng.Object) []*ast.SelectorExpr {
 
 // c10R4: the closer-peer list of one response is cut to <= 2*bucketSize before use.
 func c10R4(c *Ctx) {
-	f := c.Fn("(*dht.query).queryPeer")
+	rc := findRespColl(c)
+	f := rc.QP
 	cf := f.CFG()
 	info := f.Info()
-	qcalls := f.Calls("field:dht.query.queryFn")
-	c.Anchor(len(qcalls) == 1, "expected exactly one q.queryFn call in queryPeer, found %d", len(qcalls))
-	// variable receiving the peers
-	var v eng.Object
-	if as, ok := c.P.Parent(qcalls[0]).(*ast.AssignStmt); ok && len(as.Lhs) >= 1 {
-		v = eng.ObjOf(info, as.Lhs[0])
-	}
-	c.Anchor(v != nil, "result variable of q.queryFn not found")
-	// the range loop consuming it
-	var loops []*ast.RangeStmt
-	f.Walk(func(n ast.Node) bool {
-		if r, ok := n.(*ast.RangeStmt); ok && eng.IsObj(info, r.X, v) {
-			loops = append(loops, r)
-		}
-		return true
-	})
+	qcalls := []*ast.CallExpr{rc.QCall}
+	v := rc.RespQ
+	loops := rc.Loops
 	c.Check(K(f.Name, "response loop"), f.Pos(), len(loops) >= 1, "queryPeer iterates the response peers", "no range over the queryFn result")
+	if rc.Call != nil {
+		// the helper never replaces the list it was handed
+		n := len(assignsDeep(rc.F, rc.Resp))
+		c.Check(K(rc.F.Name, "response list not replaced"), rc.F.Pos(), n == 0, "the response list is only ever replaced by a subset of itself", "the helper reassigns its response parameter")
+	}
 	// every assignment to v: queryFn result, a cut v = v[:B], or an allow-listed filter
 	var cuts []*ast.AssignStmt
 	f.Walk(func(n ast.Node) bool {
@@ -316,6 +324,9 @@ func c10R4(c *Ctx) {
 			// every path to the loop either passes the cut or takes the edge len(v) <= bound
 			cutLoc := cf.LocOf(cut)
 			loopLoc := cf.LocOf(loop.X)
+			if rc.Call != nil {
+				loopLoc = cf.LocOf(rc.Call)
+			}
 			reach, _ := cf.Reach(cf.LocOf(qcalls[0]), eng.LocSet(loopLoc), eng.ReachOpt{
 				CutLoc: eng.LocSet(cutLoc),
 				CutEdge: func(b *eng.Block, i int) bool {
@@ -495,5 +506,130 @@ func c09R3(c *Ctx) {
 			c.Check(K(f.Name, name), call.Pos(), ok, "wire readers are bounded by network.MessageSizeMax", detail)
 		}
 	}
-	c.Check("readers", 0, n >= 3, "at least 3 wire reader constructions exist", "found "+itoa(n))
+	c.Check("readers", 0, n >= 2, "at least 2 wire reader constructions exist", "found "+itoa(n))
+}
+
+// respColl locates the code that consumes one query response: the loop over the peers
+// returned by q.queryFn and the list of IDs it reports as heard.  The loop normally lives in
+// queryPeer; when it has been extracted, it is followed into the helper that queryPeer hands
+// the response to (one level).
+type respColl struct {
+	QP    *eng.Func     // (*query).queryPeer
+	QCall *ast.CallExpr // the q.queryFn call
+	RespQ eng.Object    // the response list in queryPeer
+	F     *eng.Func     // function holding the loop: QP or the helper
+	Resp  eng.Object    // the response list in F (a parameter of the helper)
+	Call  *ast.CallExpr // the helper call in queryPeer, nil when F == QP
+	Loops []*ast.RangeStmt
+	SawQ  eng.Object // heard list in queryPeer (value of `heard:` in the success update)
+	Saw   eng.Object // heard list in F
+}
+
+func findRespColl(c *Ctx) *respColl {
+	qp := c.Fn("(*dht.query).queryPeer")
+	info := qp.Info()
+	qcalls := qp.Calls("field:dht.query.queryFn")
+	c.Anchor(len(qcalls) == 1, "expected exactly one q.queryFn call in queryPeer, found %d", len(qcalls))
+	rc := &respColl{QP: qp, QCall: qcalls[0], F: qp}
+	if as, ok := c.P.Parent(qcalls[0]).(*ast.AssignStmt); ok && len(as.Lhs) >= 1 {
+		rc.RespQ = eng.ObjOf(info, as.Lhs[0])
+	}
+	c.Anchor(rc.RespQ != nil, "result variable of q.queryFn not found")
+	rc.Resp = rc.RespQ
+	loopsOver := func(f *eng.Func, v eng.Object) []*ast.RangeStmt {
+		var out []*ast.RangeStmt
+		f.Walk(func(n ast.Node) bool {
+			if r, ok := n.(*ast.RangeStmt); ok && eng.IsObj(f.Info(), r.X, v) {
+				out = append(out, r)
+			}
+			return true
+		})
+		return out
+	}
+	rc.Loops = loopsOver(qp, rc.RespQ)
+	// the heard list of the success update
+	qp.Walk(func(n ast.Node) bool {
+		cl, ok := n.(*ast.CompositeLit)
+		if !ok {
+			return true
+		}
+		if tv, ok := info.Types[cl]; !ok || eng.TypeName(tv.Type) != "dht.queryUpdate" {
+			return true
+		}
+		for _, el := range cl.Elts {
+			if kv, isKV := el.(*ast.KeyValueExpr); isKV && eng.NameOf(kv.Key.(*ast.Ident)) == "heard" {
+				if o := eng.ObjOf(info, kv.Value); o != nil {
+					rc.SawQ = o
+				}
+			}
+		}
+		return true
+	})
+	if len(rc.Loops) == 0 && rc.SawQ != nil {
+		// handed to a helper whose result is the heard list?
+		defs := assignsDeep(qp, rc.SawQ)
+		if len(defs) == 1 && defs[0] != nil {
+			if call, ok := eng.Unparen(defs[0]).(*ast.CallExpr); ok {
+				if g := c.P.Func(eng.CalleeName(info, call)); g != nil && g.Lit == nil {
+					for i, a := range call.Args {
+						if eng.IsObj(info, a, rc.RespQ) {
+							if po := paramAt(g, i); po != nil {
+								if ls := loopsOver(g, po); len(ls) > 0 {
+									rc.F, rc.Resp, rc.Call, rc.Loops = g, po, call, ls
+									c.Funcs[g.Name] = true
+								}
+							}
+						}
+					}
+				}
+			}
+		}
+	}
+	rc.Saw = rc.SawQ
+	if rc.Call != nil && rc.SawQ != nil {
+		// in queryPeer the list is the helper's result; in the helper it is what every return hands back
+		rc.Saw = nil
+		defs := assignsDeep(qp, rc.SawQ)
+		if len(defs) == 1 && defs[0] != nil && eng.Unparen(defs[0]) == ast.Expr(rc.Call) {
+			var ret eng.Object
+			same := true
+			for _, r := range rc.F.CFG().Returns() {
+				if len(r.Results) != 1 {
+					same = false
+					continue
+				}
+				o := eng.ObjOf(rc.F.Info(), r.Results[0])
+				if o == nil || (ret != nil && o != ret) {
+					same = false
+				}
+				ret = o
+			}
+			if same {
+				rc.Saw = ret
+			}
+		}
+	}
+	return rc
+}
+
+// paramAt returns the i-th parameter object of f.
+func paramAt(f *eng.Func, i int) *eng.Var {
+	if f.Type.Params == nil {
+		return nil
+	}
+	idx := 0
+	for _, fl := range f.Type.Params.List {
+		if len(fl.Names) == 0 {
+			idx++
+			continue
+		}
+		for _, id := range fl.Names {
+			if idx == i {
+				v, _ := f.Info().Defs[id].(*eng.Var)
+				return v
+			}
+			idx++
+		}
+	}
+	return nil
 }
